@@ -545,6 +545,8 @@ pub fn cfg_from_opts(opts: &Opts) -> Cfg {
     c.min_track_len = opts.usize("min-track-len", 1);
     c.q_use = opts.f64("q-use", 0.5) as f32;
     c.q_collect = opts.f64("q-collect", 0.6) as f32;
+    c.own_use = opts.f64("own-use", 0.0) as f32;
+    c.own_collect = opts.f64("own-collect", 0.0) as f32;
     c.vis_metric = VisualSortMetricType::Euclidean(opts.f64("vis-thr", 3.5) as f32);
     c
 }
